@@ -175,13 +175,19 @@ func register[E boltz.Entity](env *Env, st string, store boltz.EntityStore[E]) {
 		store.AddEntityEventListenerF(func(e E) { mk("typedAsync", false)(e) }, ty.async)
 		store.AddListener(mk("untypedAsync", false), ty.async)
 	}
-	// one registration for several change types at once (the type of the change is not part of what these listeners are told)
+	// one registration for several change types at once (the type of the change is not part of what these listeners are told).
+	// The caller keeps the slice it passes as the variadic argument and uses it again: a registration owns its own copy
+	more := make([]boltz.EntityEventType, 2, 8)
+	more[0], more[1] = boltz.EntityUpdated, boltz.EntityDeleted
 	store.AddEntityIdListener(func(id string) {
 		env.record("idAny", Event{St: st, Ty: "any", Id: env.modelId(st, id)})
-	}, boltz.EntityCreated, boltz.EntityUpdated, boltz.EntityDeleted)
+	}, boltz.EntityCreated, more...)
 	store.AddListener(func(e boltz.Entity) {
 		env.record("untypedAny", Event{St: st, Ty: "any", Id: env.modelId(st, e.GetId())})
-	}, boltz.EntityCreated, boltz.EntityUpdated, boltz.EntityDeleted)
+	}, boltz.EntityCreated, more...)
+	store.AddListener(func(boltz.Entity) {}, boltz.EntityDeletedAsync, more[:1]...)
+	store.AddEntityIdListener(func(string) {}, boltz.EntityUpdatedAsync, more...)
+	more[0], more[1] = boltz.EntityCreatedAsync, boltz.EntityCreatedAsync
 	store.AddEntityConstraint(typedC[E]{env: env, st: st})
 	store.AddUntypedEntityConstraint(untypedC{env: env, st: st})
 }
